@@ -28,5 +28,4 @@ def run(tier, seed, t0):
 
 
 def replay(path):
-    print("C06 cases are deterministic; re-run ./vcheck C06 (the case id names the failing input)")
-    sys.exit(2)
+    vlib.replay_enum(PID, build(), path, env={"VERIF_REPO": vlib.REPO})
